@@ -1083,7 +1083,7 @@ Proof.
       positional_args, kw_only_args, required, optional, declared.
     rewrite EP, EQ, EK, SS, ST. simpl. rewrite WP. simpl.
     destruct (c_pos c) as [|v [|? ?]]; simpl; try reflexivity.
-    unfold assoc. simpl. rewrite Nat.eqb_refl. simpl. rewrite WP. reflexivity.
+    unfold assoc. simpl. rewrite Nat.eqb_refl. reflexivity.
 Qed.
 
 (* non-str keys reaching a dict-convention wrapper are rejected by the generated code itself *)
